@@ -3,6 +3,7 @@
 use std::io::{BufRead, Write};
 
 mod util;
+mod findrun;
 mod xread;
 mod xrun;
 
@@ -55,7 +56,9 @@ fn main() {
     let stdout = std::io::stdout();
     let mut out = std::io::BufWriter::new(stdout.lock());
     // keep panics of the code under test quiet; they are reported as "panic" results
-    std::panic::set_hook(Box::new(|_| {}));
+    if std::env::var_os("FUV_PANICS").is_none() {
+        std::panic::set_hook(Box::new(|_| {}));
+    }
     for line in stdin.lock().lines() {
         let line = line.unwrap();
         let mut words = line.split(' ');
@@ -64,6 +67,7 @@ fn main() {
         let res = std::panic::catch_unwind(|| match kind {
             "xread" => xread::handle(&rest),
             "xrun" => xrun::handle(&rest),
+            "find" => findrun::handle(&rest),
             _ => "badcase".to_string(),
         });
         let res = res.unwrap_or_else(|_| "panic".to_string());
